@@ -37,15 +37,15 @@ class Polynomial(Vector):
             isinstance(args[0], Vector)):
 
                 for (key, value) in args[0].__dict__.items():
+                    if key in ('_derivs_', '_cache_') or key.startswith('d_d'):
+                        continue
                     self.__dict__[key] = value
 
-                # Convert derivatives to class Polynomial if necessary
-                if type(self) != Polynomial:
-                    derivs = {}
-                    for (key,value) in args[0].derivs.items():
-                        derivs[key] = Polynomial(value)
-
-                    self._derivs_ = derivs
+                # Use new dictionaries; convert derivatives to class Polynomial
+                self._cache_ = {}
+                self._derivs_ = {}
+                for (key,value) in args[0]._derivs_.items():
+                    self.insert_deriv(key, Polynomial(value))
 
         # Otherwise use the Vector class constructor
         else:
